@@ -539,6 +539,12 @@ class Scheduler:
         self.sync_events = 0
         self._sync_p = float(self.cfg.get("sync_p", 0))
         self._focus_lock = self.cfg.get("focus_lock")
+        # "phases": [k1, k2, ...] - deterministic hand-offs between actor threads: the running actor is parked at its k1-th
+        # synchronisation event, the next one at its k2-th, ... then everything runs to completion (two targeted switches cost one
+        # draw of (k1, k2) instead of two lucky coins among all events)
+        self._phases = list(self.cfg["phases"]) if self.cfg.get("phases") else None
+        self._phase_i = 0
+        self._phase_count = 0
         self._p_store = float(self.cfg.get("p_store", 0))
         self._store_pts: dict = {}
         self.preempt_store = 0
@@ -718,7 +724,17 @@ class Scheduler:
         self.sync_events = n
         mode = self._mode
         to = None
-        if mode == "random" or mode == "store":
+        if mode == "random" and self._phases is not None:
+            if me.kind == "actor" and self._phase_i < len(self._phases) and \
+                    (self._focus_lock is None or (self._focus_lock in lock.name and what.startswith("after"))):
+                self._phase_count += 1
+                if self._phase_count >= self._phases[self._phase_i]:
+                    cand = [t for t in self._eligible(me) if t.kind == "actor"]
+                    if cand:
+                        self._phase_i += 1
+                        self._phase_count = 0
+                        to = cand[int(self._rng.random() * len(cand))]
+        elif mode == "random" or mode == "store":
             if self._sync_p and (self._focus_lock is None or self._focus_lock in lock.name) and self._rng.random() < self._sync_p:
                 cand = self._eligible(me)
                 if cand:
